@@ -334,7 +334,8 @@ def _main(prop, args, seed, t0):
     if unknown_fail:
         f0 = min(unknown_fail, key=lambda f: len(json.dumps(f["case"], default=str)))
         violation = {"kind": "failing-input", "case": f0["case"], "what": f0["what"],
-                     "extra": f0.get("extra"), "n_failures": len(unknown_fail)}
+                     "extra": f0.get("extra"), "n_failures": len(unknown_fail),
+                     "other_failures": [{"what": f["what"][:300], "case": f["case"]} for f in unknown_fail[:400] if f is not f0]}
     elif not proofs_ok or unknown_dis:
         what = broken[:] + [f"correspondence: {len(unknown_dis)} case(s) where model and implementation differ"
                             for _ in [0] if unknown_dis]
